@@ -13,7 +13,11 @@ def rulesAll : List Rule := [
   -- names that occur inside the always-advertised `accept-encoding, range`
   ⟨b "accept", fun v => v.take 1, b "d3"⟩,
   ⟨b "accept-language", fun v => if v.length < 3 then b "s" else b "l", b "d4"⟩,
-  ⟨b "encoding", fun _ => b "c", b "d5"⟩]
+  ⟨b "encoding", fun _ => b "c", b "d5"⟩,
+  -- classes of different lengths, the empty one included: tuples whose values concatenate to the same bytes
+  -- (`a`,`bc` / `ab`,`c`; ``,`x` / `x`,``) are different tuples
+  ⟨b "x-first", fun v => v.take 2, b ""⟩,
+  ⟨b "x-second", fun v => v.take 2, b "c"⟩]
 
 def digest (t : Tuple) : Nat :=
   t.foldl (fun acc v => (v.foldl (fun a x => (a * 257 + x.toNat + 1) % 1000000007) ((acc * 31 + 7) % 1000000007))) 17
